@@ -43,7 +43,7 @@ def shards(tier):
 
 
 def required_counters(tier):
-    return {"triples.numpy": 1000, "triples.jax": 800, "triples.jaxtrace": 800, "triples.tf": 300, "triples.duck": 500, "user.categories": 200, "kinds.key": 30, "kinds.other": 100, "reverse_order_shards": 3, "context_triples.block": 200, "context_triples.call": 400, "context_triples.after-hostile": 500, "hostile_events": 5}
+    return {"triples.numpy": 1000, "triples.jax": 800, "triples.jaxtrace": 800, "triples.tf": 300, "triples.duck": 500, "user.categories": 200, "kinds.key": 30, "kinds.other": 100, "reverse_order_shards": 3, "context_triples.block": 200, "context_triples.built-while-disabled": 300, "context_triples.call": 400, "context_triples.after-hostile": 500, "hostile_events": 5}
 
 
 def cat(name):
@@ -380,6 +380,19 @@ def shard_context(rec, seed):
     # 1. one block for the whole table
     with jaxtyped("context"):
         table("block", shuffled())
+    # 1b. annotations BUILT while checking was switched off, used after it is on again
+    jaxtyping.config.update("jaxtyping_disable", True)
+    try:
+        w_np = {c: cat(c)[np.ndarray, "..."] for c in DT.ALL_CATEGORIES}
+        w_any = {c: cat(c)[typing.Any, "..."] for c in DT.ALL_CATEGORIES}
+    finally:
+        jaxtyping.config.update("jaxtyping_disable", False)
+    keep = (anns, anns_any)
+    anns, anns_any = w_np, w_any
+    table("built-while-disabled", shuffled()[:10])
+    with jaxtyped("context"):
+        table("built-while-disabled:block", shuffled()[:10])
+    anns, anns_any = keep
     # 2. body of a decorated function (typeguard and no typechecker)
     for tc, lab in ((typeguard.typechecked, "call:typeguard"), (None, "call:none")):
 
